@@ -176,6 +176,7 @@ pub fn run_file(t: &Templates, seed: u64, inp: &str, outp: &str) {
             "hs" => run_hs(t, seed, &scn),
             "pubof" => json!({"pk_hex": hex(&kestrel_crypto::x25519_derive_public(&unhex(jstr(&scn, "sk_hex"))).unwrap())}),
             "mkkey" => mkkey(t, seed, &scn),
+            "specfile" => specfile(t, seed, &scn),
             "open" => open_file(t, &scn),
             "open_pass" => open_pass(t, &scn),
             "unlock" => spec_unlock(t, &scn),
@@ -410,4 +411,36 @@ pub fn clear(t: &Templates, seed: u64, scn: &Value) -> Value {
         ev["identity_found"] = json!(found);
     }
     ev
+}
+
+/// Write a specification-built file (terms only, no encryptor involved) for process-level tests.
+pub fn specfile(t: &Templates, seed: u64, scn: &Value) -> Value {
+    let api = jstr(scn, "api");
+    let chunks: Vec<u64> = jarr(scn, "chunks").iter().map(|x| x.as_u64().unwrap()).collect();
+    let pseed = ju64_or(scn, "pseed", 1);
+    let (header, key, prefix) = if api == "key" {
+        let s_priv = unhex(jstr(scn, "s_priv_hex"));
+        let r_pub = unhex(jstr(scn, "r_pub_hex"));
+        let s_pub = kestrel_crypto::x25519_derive_public(&s_priv).unwrap();
+        let e_priv = Rng::derive(seed, &format!("specfile-e{}", jstr_or(scn, "tag", ""))).bytes32();
+        let e_pub = kestrel_crypto::x25519_derive_public(&e_priv).unwrap();
+        let payload = Rng::derive(seed, &format!("specfile-p{}", jstr_or(scn, "tag", ""))).bytes32();
+        let env = Env::new().b("s_priv", &s_priv).b("s_pub", &s_pub).b("e_priv", &e_priv).b("e_pub", &e_pub).b("rs", &r_pub).b("payload", &payload);
+        (t.must("key_header", &env), t.must("key_file_key", &env), t.must("key_prefix", &env))
+    } else {
+        let pw = unhex(jstr(scn, "password_hex"));
+        let salt = Rng::derive(seed, &format!("specfile-s{}", jstr_or(scn, "tag", ""))).bytes32();
+        let env = Env::new().b("password", &pw).b("salt", &salt);
+        (t.must("pass_header", &env), t.must("pass_file_key", &env), t.must("pass_prefix", &env))
+    };
+    let mut file = header;
+    let mut off = 0u64;
+    for (i, c) in chunks.iter().enumerate() {
+        let pt = pbytes(pseed, off, off + c);
+        file.extend_from_slice(&t.chunk_record(&key, &prefix, i as u64, if i + 1 == chunks.len() { 1 } else { 0 }, &pt));
+        off += c;
+    }
+    std::fs::write(jstr(scn, "out"), &file).expect("write specfile");
+    std::fs::write(format!("{}.plain", jstr(scn, "out")), pbytes(pseed, 0, off)).expect("write plain");
+    json!({"len": file.len(), "plen": off})
 }
